@@ -364,7 +364,8 @@ class Context(MutableMapping[Identifier, Symbol]):
                 continue
 
             # Visit node
-            with enter_file(starred.origin):
+            # NOTE Enter the file as it was imported, `origin` has symlinks resolved
+            with enter_file(Path(starred.module_spec.origin)):
                 starred_ast = ast.parse(starred.origin.read_text())
                 starred_context = compile_root_context(starred_ast)
 
